@@ -113,6 +113,23 @@ func parseIdentList(p *parser) *identList {
 	return lst
 }
 
+// maxNestingDepth bounds the nesting of objects and lists, as encoding/json
+// does, so that the recursive descent cannot exhaust the goroutine stack.
+const maxNestingDepth = 10000
+
+// enterNested enters one more level of nesting. When that would exceed
+// maxNestingDepth it reports an error instead and returns false.
+func (p *parser) enterNested() bool {
+	if p.depth >= maxNestingDepth {
+		p.CodeErrorfHere(
+			"jsonx.tooDeep", "nesting deeper than %d", maxNestingDepth,
+		)
+		return false
+	}
+	p.depth++
+	return true
+}
+
 func parseValue(p *parser) value {
 	switch {
 	case p.See(tokKeyword):
@@ -165,18 +182,26 @@ func parseValue(p *parser) value {
 		)
 		return nil
 	case p.seeOp("{"):
+		if !p.enterNested() {
+			return nil
+		}
 		left := p.Shift()
 		entries := parseObjectEntries(p)
 		right := p.expectOp("}")
+		p.depth--
 		return &object{
 			left:    left,
 			entries: entries,
 			right:   right,
 		}
 	case p.seeOp("["):
+		if !p.enterNested() {
+			return nil
+		}
 		left := p.Shift()
 		entries := parseListEntries(p)
 		right := p.expectOp("]")
+		p.depth--
 		return &list{
 			left:    left,
 			entries: entries,
